@@ -410,6 +410,21 @@ def c18_run(rep, rng, tier, term):
                 if a is not None and a != b:
                     out.append({'oracle': 'C18.forms', 'case': {'string': w, 'add_erroneous': ae},
                                 'msg': 'parse_graphic_sequence(%r) gives %s but the same items as a list %r give %s' % (w, a, snap, b)})
+        # a str SUBCLASS stands for the plain string it denotes: an AnsiStr (formatted or not) for its text, as sequence and as item
+        from ansi_string import AnsiStr as _AnsiStr
+        for w in [x for x in odd_strs if x and '\x1b' not in x] + ['38;5;1', '1;31', '48;2;1;2;3;4']:
+            for ae in (False, True):
+                try:
+                    ref = [str(x) for x in parse_graphic_sequence(w, ae)]
+                    a1 = [str(x) for x in parse_graphic_sequence(_AnsiStr(w), ae)]
+                    a2 = [str(x) for x in parse_graphic_sequence(_AnsiStr(w, 'cyan'), ae)]
+                    a3 = [str(x) for x in parse_graphic_sequence([_AnsiStr(p, 'bold') if p else p for p in w.split(';')], ae)]
+                except Exception as e:  # noqa
+                    out.append({'oracle': 'C18.forms', 'case': {'string': w, 'add_erroneous': ae, 'given as': 'AnsiStr'}, 'msg': 'raised %r' % e})
+                    continue
+                if a1 != ref or a2 != ref or a3 != ref:
+                    out.append({'oracle': 'C18.forms', 'case': {'string': w, 'add_erroneous': ae, 'given as': 'AnsiStr'},
+                                'msg': 'parse_graphic_sequence(%r) gives %s; given as AnsiStr %s, as formatted AnsiStr %s, as list of formatted AnsiStr items %s' % (w, ref, a1, a2, a3)})
         # "a list of ints/strings": the same codes written as decimal strings, or mixed, split exactly like the ints
         for cs in lists[::3]:
             if not cs:
@@ -521,6 +536,13 @@ def c18_str_oracle(w, term):
 
 def c18_replay(v, term):
     case = v['case']
+    if case.get('given as') == 'AnsiStr':
+        from ansi_string import AnsiStr as _AnsiStr
+        w, ae = case['string'], case['add_erroneous']
+        ref = [str(x) for x in parse_graphic_sequence(w, ae)]
+        forms = (_AnsiStr(w), _AnsiStr(w, 'cyan'), [_AnsiStr(p, 'bold') if p else p for p in w.split(';')])
+        got = [[str(x) for x in parse_graphic_sequence(f, ae)] for f in forms]
+        return None if all(g == ref for g in got) else 'parse_graphic_sequence(%r) gives %s; given as AnsiStr forms: %s' % (w, ref, got)
     if 'string' in case:
         return c18_str_oracle(case['string'], term)
     if 'codes' in case:
